@@ -434,6 +434,11 @@ class Connection(ExportImport):
                 del obj._p_oid
                 if obj._p_changed:
                     obj._p_changed = False
+            elif oid in self._creating:
+                # A new object that the failing commit has already
+                # stored.  It is disowned by _invalidate_creating(); its
+                # state cannot be reloaded, so it must not become a ghost.
+                pass
             else:
                 # Note: If we invalidate a non-ghostifiable object
                 # (i.e. a persistent class), the object will
